@@ -104,7 +104,7 @@ def stream_hint_spans(ctx, impl, drv):
     n = 1200 if ctx.tier == "quick" else 20000
     for _ in range(n):
         rng = ctx.rng
-        base = [rng.choice(H.CODE) for _ in range(rng.randint(1, 5))]
+        base = H.gen_base(rng, 1, 5) if rng.random() < 0.9 else [rng.choice(H.CODE) for _ in range(rng.randint(1, 5))]
         layout = H.gen_decorated(rng, base, labels=H.LABELS[:8] + ["été", "变量", "λ"])
         lead, trail = rng.choice([0, 0, 0, 1, 2]), rng.choice([0, 0, 0, 1, 2])
         spec = drv.call("c12.spec_decorate", lines=layout)
